@@ -94,6 +94,11 @@ def extract(config, repo=None, profile="release"):
     cmd += CONFIGS[config]
     try:
         p = subprocess.run(cmd, cwd=repo, env=env, stdout=subprocess.PIPE, stderr=subprocess.STDOUT, text=True)
+        if p.returncode != 0 and "(signal:" in p.stdout and "error[E" not in p.stdout:
+            # the compiler was killed from outside (not a type error): one more attempt in a fresh target dir
+            shutil.rmtree(tgt, ignore_errors=True)
+            os.makedirs(tgt, exist_ok=True)
+            p = subprocess.run(cmd, cwd=repo, env=env, stdout=subprocess.PIPE, stderr=subprocess.STDOUT, text=True)
         if p.returncode != 0:
             raise FactsError("configuration %r does not type-check:\n%s" % (config, p.stdout[-4000:]))
         if not os.path.exists(out):
@@ -584,6 +589,7 @@ class Facts:
         self.statics = data["statics"]
         self.typewalk = data["typewalk"]
         self.cfg_attrs = data["cfg_attrs"]
+        self.trait_impls = sorted(data.get("trait_impls", []), key=lambda x: (x.get("trait", ""), x.get("self_ty", "")))
         self._bodies = {}
 
     @classmethod
